@@ -733,10 +733,14 @@ int vorbis_synthesis_init(vorbis_dsp_state *v,vorbis_info *vi){
 
 int vorbis_synthesis_blockin(vorbis_dsp_state *v,vorbis_block *vb){
   vorbis_info *vi=v->vi;
-  codec_setup_info *ci=vi->codec_setup;
+  codec_setup_info *ci=vi?vi->codec_setup:NULL;
   private_state *b=v->backend_state;
-  int hs=ci->halfrate_flag;
+  int hs;
   int i,j;
+
+  /* a state whose vorbis_synthesis_init was refused has neither */
+  if(!ci || !b)return(OV_EINVAL);
+  hs=ci->halfrate_flag;
 
   if(!vb)return(OV_EINVAL);
   if(v->pcm_current>v->pcm_returned  && v->pcm_returned!=-1)return(OV_EINVAL);
@@ -977,14 +981,19 @@ int vorbis_synthesis_read(vorbis_dsp_state *v,int n){
    this implicit buffer data not normally decoded. */
 int vorbis_synthesis_lapout(vorbis_dsp_state *v,float ***pcm){
   vorbis_info *vi=v->vi;
-  codec_setup_info *ci=vi->codec_setup;
+  codec_setup_info *ci=vi?vi->codec_setup:NULL;
   private_state *b=v->backend_state;
-  int hs=ci->halfrate_flag;
-
-  int n=ci->blocksizes[v->W]>>(hs+1);
-  int n0=ci->blocksizes[0]>>(hs+1);
-  int n1=ci->blocksizes[1]>>(hs+1);
+  int hs,n,n0,n1;
   int i,j;
+
+  /* a state whose vorbis_synthesis_init was refused has neither:
+     nothing decoded, nothing to hand out */
+  if(!ci || !b)return 0;
+  hs=ci->halfrate_flag;
+
+  n=ci->blocksizes[v->W]>>(hs+1);
+  n0=ci->blocksizes[0]>>(hs+1);
+  n1=ci->blocksizes[1]>>(hs+1);
 
   if(v->pcm_returned<0)return 0;
 
